@@ -2,14 +2,14 @@ SPECIFICATION Spec
 CONSTANTS
   NSess = 1
   NMsg = 2
-  MaxRtx = 2
+  MaxRtx = 1
   Nstart = 1
   AckMin = 2
   AckMax = 3
-  MaxTime = 14
+  MaxTime = 10
   MaxDup = 1
   SubmitUntil = 1
-  OneDeepMemory = FALSE
-INVARIANTS NstartBoundI OneOutcomeI NeverLateI OneNackI CountBoundI ConcludeOnceI HeldFifoI
+  OneDeepMemory = TRUE
+INVARIANTS ConcludeOnceI
 CONSTRAINT NotBrokenI
 CHECK_DEADLOCK FALSE
